@@ -167,6 +167,11 @@ class Gen:
     def fresh(self, prefix):
         self.counter += 1
         n = f'{prefix}{self.counter}'
+        if self.names_style == 'shared':
+            # one name space for all roles: in a sequence of scripts the
+            # same name is a constructor in one, a function, sort, constant
+            # or bound variable in another
+            n = f'n{self.counter}'
         if self.quoted and self.r.random() < 0.3:
             return '|' + n + (' q' if self.r.random() < 0.5 else '') + '|'
         return n
